@@ -205,6 +205,67 @@ def check_stream(acc, subj, tier):
                         break
                 acc.outcome((key, repr([x[0] for x in ref])))
     acc.sample({"subject": subj.name, "example": "3 chunks, global generator re-seeded before every query and update"}, limit=1)
+    check_shared_manager(acc, subj, chunkings[:6], UV)
+
+
+def check_shared_manager(acc, subj, chunkings, UV):
+    """Twin strategies that were constructed with the SAME caller-owned, already used budget manager object (equal parameters): the
+    strategy works on its own copy of the manager, so running one twin must not change what the other one returns."""
+    import copy
+
+    if subj.kind != "strategy":
+        return
+    for budget in (0.25, 0.5):
+        for sd in (0, 1):
+            with warnings.catch_warnings():
+                warnings.simplefilter("ignore")
+                proto = subj.make(budget, sd)
+                if getattr(proto, "budget_manager", None) is None:
+                    return
+                # a donor strategy is run over one chunk; its fitted manager is the caller-owned, used manager
+                donor = subj.make(budget, sd)
+                try:
+                    idx, ut = subj.query(donor, ("a", "b"), UV)
+                    subj.update(donor, ("a", "b"), idx, ut, UV)
+                    used = copy.deepcopy(donor.budget_manager_)
+                except Exception:
+                    continue
+            for chunks in chunkings:
+                key = (subj.name, "shared_manager", budget, sd, tuple(chunks))
+
+                def run(obj):
+                    out = []
+                    with warnings.catch_warnings():
+                        warnings.simplefilter("ignore")
+                        try:
+                            for ch in chunks:
+                                np.random.seed(7)
+                                idx, ut = subj.query(obj, ch, UV)
+                                subj.update(obj, ch, idx, ut, UV)
+                                out.append(([int(i) for i in idx], np.asarray(ut, dtype=float)))
+                        except Exception as e:
+                            out.append(("exc", type(e).__name__))
+                    return out
+
+                shared = copy.deepcopy(used)
+                params = proto.get_params(deep=False)
+                twins = [type(proto)(**dict(params, budget_manager=shared)) for _ in range(2)]
+                ref_obj = type(proto)(**dict(params, budget_manager=copy.deepcopy(used)))
+                res = [run(t) for t in twins] + [run(ref_obj)]
+                acc.transitions += 6 * len(chunks)
+                acc.case(key)
+                acc.traces_validated += 1
+                wit = {"subject": subj.name, "budget": budget, "random_state": sd, "chunks": ["".join(c) for c in chunks],
+                       "how": "two strategies built with the same used budget manager object, run one after the other; third strategy built with a private copy"}
+                rep = {"what": "stream", "name": subj.name}
+                for nm, r in (("second twin", res[1]), ("strategy with a private copy of the manager", res[2])):
+                    same = len(r) == len(res[0]) and all((a[0] == b[0] and (isinstance(a[1], str) and a[1] == b[1] or (not isinstance(a[1], str) and np.array_equal(
+                        a[1], b[1], equal_nan=True)))) for a, b in zip(r, res[0]))
+                    if not same:
+                        acc.violation(subj.name, "twins_sharing_a_manager_differ", "first twin %s, %s %s" % ([x[0] for x in res[0]], nm, [x[0] for x in r]),
+                                      wit, {}, rep, len(chunks))
+                        break
+                acc.outcome((key, repr([x[0] for x in res[0]])))
 
 
 def check_model(acc, kind, subj, tier):
